@@ -232,14 +232,26 @@ mod harnesses {
     /// NOT transcribed from `into_tokens`.
     #[derive(Clone, Copy, PartialEq, Eq)]
     pub enum Exp {
-        /// exactly one token of this kind whose canonical spelling has this many characters
-        Tok(K, usize),
+        /// exactly one token of this kind; length of its canonical spelling (a) written by hand,
+        /// (b) as computed by `Token::width()` (= `to_string().len()`) on a fresh token of that kind
+        Tok(K, usize, usize),
         /// a blank: no token, caret one column to the right
         Space,
         /// a line break spelled with this many characters: no token, caret to (line + 1, 1)
         Newline(usize),
         /// lexing error
         Err,
+    }
+
+    /// `Token::width()` is evaluated on a fresh, concrete token of the expected kind, not on the token
+    /// that comes back out of the `Vec` (its discriminant is symbolic for CBMC, and `Display for
+    /// Token` starts with `self.clone()`, whose `Str(_, Vec<Vec<Lex>>)` arm is a recursive clone:
+    /// measured > 7 min / > 12 GB even for ','). Together with "kind == expected kind" this is the
+    /// same statement.
+    fn tok(k: K, hand_width: usize, canonical: Token) -> Exp {
+        let display_width = canonical.width();
+        forget(canonical);
+        Exp::Tok(k, hand_width, display_width)
     }
 
     fn is(x: Option<u8>, ch: u8) -> bool {
@@ -249,107 +261,107 @@ mod harnesses {
     /// `a`, `b`: first and second look-ahead character (None = end of input).
     pub fn expect(c: char, a: Option<u8>, b: Option<u8>) -> Exp {
         match c {
-            ',' => Exp::Tok(K::Comma, 1),
-            '(' => Exp::Tok(K::LRBrack, 1),
-            ')' => Exp::Tok(K::RRBrack, 1),
-            '[' => Exp::Tok(K::LSBrack, 1),
-            ']' => Exp::Tok(K::RSBrack, 1),
-            '{' => Exp::Tok(K::LCBrack, 1),
-            '}' => Exp::Tok(K::RCBrack, 1),
-            '|' => Exp::Tok(K::Ver, 1),
-            '\\' => Exp::Tok(K::BSlash, 1),
-            '?' => Exp::Tok(K::Question, 1),
+            ',' => tok(K::Comma, 1, Token::Comma),
+            '(' => tok(K::LRBrack, 1, Token::LRBrack),
+            ')' => tok(K::RRBrack, 1, Token::RRBrack),
+            '[' => tok(K::LSBrack, 1, Token::LSBrack),
+            ']' => tok(K::RSBrack, 1, Token::RSBrack),
+            '{' => tok(K::LCBrack, 1, Token::LCBrack),
+            '}' => tok(K::RCBrack, 1, Token::RCBrack),
+            '|' => tok(K::Ver, 1, Token::Ver),
+            '\\' => tok(K::BSlash, 1, Token::BSlash),
+            '?' => tok(K::Question, 1, Token::Question),
             ':' => {
                 if is(a, b':') && is(b, b'=') {
-                    Exp::Tok(K::SliceIncl, 3) // "::="
+                    tok(K::SliceIncl, 3, Token::SliceIncl) // "::="
                 } else if is(a, b':') {
-                    Exp::Tok(K::Slice, 2) // "::"
+                    tok(K::Slice, 2, Token::Slice) // "::"
                 } else if is(a, b'=') {
-                    Exp::Tok(K::Assign, 2) // ":="
+                    tok(K::Assign, 2, Token::Assign) // ":="
                 } else {
-                    Exp::Tok(K::DoublePoint, 1) // ":"
+                    tok(K::DoublePoint, 1, Token::DoublePoint) // ":"
                 }
             }
             '.' => {
                 if is(a, b'.') && is(b, b'=') {
-                    Exp::Tok(K::RangeIncl, 3) // "..="
+                    tok(K::RangeIncl, 3, Token::RangeIncl) // "..="
                 } else if is(a, b'.') {
-                    Exp::Tok(K::Range, 2) // ".."
+                    tok(K::Range, 2, Token::Range) // ".."
                 } else {
-                    Exp::Tok(K::Point, 1) // "."
+                    tok(K::Point, 1, Token::Point) // "."
                 }
             }
             '<' => {
                 if is(a, b'<') && is(b, b'=') {
-                    Exp::Tok(K::BLShiftAssign, 3) // "<<="
+                    tok(K::BLShiftAssign, 3, Token::BLShiftAssign) // "<<="
                 } else if is(a, b'<') {
-                    Exp::Tok(K::BLShift, 2) // "<<"
+                    tok(K::BLShift, 2, Token::BLShift) // "<<"
                 } else if is(a, b'=') {
-                    Exp::Tok(K::Leq, 2) // "<="
+                    tok(K::Leq, 2, Token::Leq) // "<="
                 } else {
-                    Exp::Tok(K::Le, 1) // "<"
+                    tok(K::Le, 1, Token::Le) // "<"
                 }
             }
             '>' => {
                 if is(a, b'>') && is(b, b'=') {
-                    Exp::Tok(K::BRShiftAssign, 3) // ">>="
+                    tok(K::BRShiftAssign, 3, Token::BRShiftAssign) // ">>="
                 } else if is(a, b'>') {
-                    Exp::Tok(K::BRShift, 2) // ">>"
+                    tok(K::BRShift, 2, Token::BRShift) // ">>"
                 } else if is(a, b'=') {
-                    Exp::Tok(K::Geq, 2) // ">="
+                    tok(K::Geq, 2, Token::Geq) // ">="
                 } else {
-                    Exp::Tok(K::Ge, 1) // ">"
+                    tok(K::Ge, 1, Token::Ge) // ">"
                 }
             }
             '+' => {
                 if is(a, b'=') {
-                    Exp::Tok(K::AddAssign, 2) // "+="
+                    tok(K::AddAssign, 2, Token::AddAssign) // "+="
                 } else {
-                    Exp::Tok(K::Add, 1)
+                    tok(K::Add, 1, Token::Add)
                 }
             }
             '-' => {
                 if is(a, b'=') {
-                    Exp::Tok(K::SubAssign, 2) // "-="
+                    tok(K::SubAssign, 2, Token::SubAssign) // "-="
                 } else if is(a, b'>') {
-                    Exp::Tok(K::To, 2) // "->"
+                    tok(K::To, 2, Token::To) // "->"
                 } else {
-                    Exp::Tok(K::Sub, 1)
+                    tok(K::Sub, 1, Token::Sub)
                 }
             }
             '*' => {
                 if is(a, b'=') {
-                    Exp::Tok(K::MulAssign, 2) // "*="
+                    tok(K::MulAssign, 2, Token::MulAssign) // "*="
                 } else {
-                    Exp::Tok(K::Mul, 1)
+                    tok(K::Mul, 1, Token::Mul)
                 }
             }
             '/' => {
                 if is(a, b'=') {
-                    Exp::Tok(K::DivAssign, 2) // "/="
+                    tok(K::DivAssign, 2, Token::DivAssign) // "/="
                 } else if is(a, b'/') {
-                    Exp::Tok(K::FDiv, 2) // "//"
+                    tok(K::FDiv, 2, Token::FDiv) // "//"
                 } else {
-                    Exp::Tok(K::Div, 1)
+                    tok(K::Div, 1, Token::Div)
                 }
             }
             '^' => {
                 if is(a, b'=') {
-                    Exp::Tok(K::PowAssign, 2) // "^="
+                    tok(K::PowAssign, 2, Token::PowAssign) // "^="
                 } else {
-                    Exp::Tok(K::Pow, 1)
+                    tok(K::Pow, 1, Token::Pow)
                 }
             }
             '=' => {
                 if is(a, b'>') {
-                    Exp::Tok(K::BTo, 2) // "=>"
+                    tok(K::BTo, 2, Token::BTo) // "=>"
                 } else {
-                    Exp::Tok(K::Eq, 1)
+                    tok(K::Eq, 1, Token::Eq)
                 }
             }
             '!' => {
                 if is(a, b'=') {
-                    Exp::Tok(K::Neq, 2) // "!="
+                    tok(K::Neq, 2, Token::Neq) // "!="
                 } else {
                     Exp::Err // '!' alone is not a token
                 }
@@ -462,7 +474,7 @@ mod harnesses {
                         );
                         assert!(!ttl_after, "step(newline): token_this_line reset");
                     }
-                    Exp::Tok(k, w) => {
+                    Exp::Tok(k, w, dw) => {
                         assert!(tokens.len() == 1, "step: exactly one token returned");
                         let lex = &tokens[0];
                         let got = kind_of(&lex.token);
@@ -490,7 +502,7 @@ mod harnesses {
                             "step: characters consumed == length of canonical spelling (table)"
                         );
                         assert!(
-                            lex.token.width() == consumed,
+                            dw == consumed,
                             "step: characters consumed == Token::width() (Display round trip)"
                         );
                         assert!(pending == 0, "step: no pending newlines");
@@ -671,7 +683,8 @@ mod harnesses {
     }
 
     /// Arbitrary lexer state within the bounds.
-    pub fn any_state() -> (VerifState, Pre) {
+    pub fn any_state() -> (VerifState, Pre) { any_state_k::<3>() }
+    pub fn any_state_k<const KF: usize>() -> (VerifState, Pre) {
         let c: i32 = kani::any();
         let l: i32 = kani::any();
         kani::assume(c >= 1 && c <= MAX_INDENT); // B1: 1 <= cur_indent <= 4*D+1
@@ -681,7 +694,7 @@ mod harnesses {
         let col: usize = kani::any();
         kani::assume(line >= 1 && line <= 1000); // B3
         kani::assume(col >= 1 && col <= 1000); // B4
-        let k: usize = kani::any();
+        let k: usize = if KF < 3 { KF } else { kani::any() };
         kani::assume(k <= 2); // B5: 0..=2 pending newlines
         let mut newlines: Vec<Lex> = Vec::with_capacity(3);
         if k >= 1 {
@@ -695,6 +708,11 @@ mod harnesses {
         (state, Pre { c, l, ttl, k, pos })
     }
 
+    /// Nesting level of a 1-based indentation width: 1..=4 -> 0, 5..=8 -> 1, ...
+    fn level(w: i32) -> usize {
+        ((w - 1) / 4) as usize
+    }
+
     fn at(lex: &Lex, p: CaretPos) -> bool {
         lex.pos.start.line == p.line && lex.pos.start.pos == p.pos
     }
@@ -706,10 +724,16 @@ mod harnesses {
     /// Post-condition of `State::token(t)` for a non-NL token `t` of kind `kind` and width `w`.
     ///
     /// Result layout (state.rs): [last pending NL]? ++ (Indent^a | Dedent^a ++ NL) ++
-    /// [remaining pending NLs in order] ++ [t], where a = |l - c| / 4.
-    fn check_token_post(res: &Vec<Lex>, state: &VerifState, pre: &Pre, kind: K, w: usize) {
+    /// [remaining pending NLs in order] ++ [t], where a = |level(l) - level(c)|,
+    /// level(w) = (w - 1) / 4.
+    fn check_token_post(res: &Vec<Lex>, state: &VerifState, pre: &Pre, kind: K, w: usize) { check_token_post_x::<true>(res, state, pre, kind, w) }
+    fn check_token_post_x<const CONTENT: bool>(res: &Vec<Lex>, state: &VerifState, pre: &Pre, kind: K, w: usize) {
         let up = pre.l >= pre.c;
-        let amount: usize = (if up { pre.l - pre.c } else { pre.c - pre.l } / 4) as usize;
+        let amount: usize = if up {
+            level(pre.l) - level(pre.c)
+        } else {
+            level(pre.c) - level(pre.l)
+        };
         let extra_nl: usize = if up { 0 } else { 1 };
         let first: usize = if pre.k >= 1 { 1 } else { 0 }; // the popped newline
         let remaining: usize = pre.k - first;
@@ -720,7 +744,7 @@ mod harnesses {
         let mut dedents: usize = 0;
         macro_rules! check_at {
             ($i:expr) => {
-                if $i < res.len() {
+                if CONTENT && $i < res.len() {
                     let lex = &res[$i];
                     let kd = kind_of(&lex.token);
                     if kd == K::Indent {
@@ -737,7 +761,7 @@ mod harnesses {
                     } else if $i < first + amount {
                         assert!(
                             kd == (if up { K::Indent } else { K::Dedent }) && at(lex, pre.pos),
-                            "token: then |l-c|/4 Indent (l >= c) or Dedent (l < c) at the caret"
+                            "token: then |level(l)-level(c)| Indent (l >= c) or Dedent (l < c) at the caret"
                         );
                     } else if $i < first + amount + extra_nl {
                         assert!(
@@ -773,12 +797,12 @@ mod harnesses {
         assert!(res.len() <= MAX_RES, "token: result within unrolled bound");
 
         assert!(
-            indents == if up { amount } else { 0 },
-            "token: number of Indent tokens == (l-c)/4 if l >= c else 0"
+            !CONTENT || indents == if up { amount } else { 0 },
+            "token: number of Indent tokens == level(l)-level(c) if l >= c else 0"
         );
         assert!(
-            dedents == if up { 0 } else { amount },
-            "token: number of Dedent tokens == (c-l)/4 if l < c else 0"
+            !CONTENT || dedents == if up { 0 } else { amount },
+            "token: number of Dedent tokens == level(c)-level(l) if l < c else 0"
         );
 
         let (c2, l2, ttl2, pending2) = state.verif_view();
@@ -800,6 +824,54 @@ mod harnesses {
         kani::cover!(res.len() == MAX_RES, "cover: longest result");
     }
 
+    #[kani::proof] #[kani::unwind(5)] fn var_k0_true() {
+        let (mut state, pre) = any_state_k::<0>();
+        let res = state.token(Token::Pass);
+        check_token_post_x::<true>(&res, &state, &pre, K::Pass, 4);
+        forget(res); forget(state);
+    }
+    #[kani::proof] #[kani::unwind(5)] fn var_k0_false() {
+        let (mut state, pre) = any_state_k::<0>();
+        let res = state.token(Token::Pass);
+        check_token_post_x::<false>(&res, &state, &pre, K::Pass, 4);
+        forget(res); forget(state);
+    }
+    #[kani::proof] #[kani::unwind(5)] fn var_k1_true() {
+        let (mut state, pre) = any_state_k::<1>();
+        let res = state.token(Token::Pass);
+        check_token_post_x::<true>(&res, &state, &pre, K::Pass, 4);
+        forget(res); forget(state);
+    }
+    #[kani::proof] #[kani::unwind(5)] fn var_k1_false() {
+        let (mut state, pre) = any_state_k::<1>();
+        let res = state.token(Token::Pass);
+        check_token_post_x::<false>(&res, &state, &pre, K::Pass, 4);
+        forget(res); forget(state);
+    }
+    #[kani::proof] #[kani::unwind(5)] fn var_k2_true() {
+        let (mut state, pre) = any_state_k::<2>();
+        let res = state.token(Token::Pass);
+        check_token_post_x::<true>(&res, &state, &pre, K::Pass, 4);
+        forget(res); forget(state);
+    }
+    #[kani::proof] #[kani::unwind(5)] fn var_k2_false() {
+        let (mut state, pre) = any_state_k::<2>();
+        let res = state.token(Token::Pass);
+        check_token_post_x::<false>(&res, &state, &pre, K::Pass, 4);
+        forget(res); forget(state);
+    }
+    #[kani::proof] #[kani::unwind(5)] fn var_k3_true() {
+        let (mut state, pre) = any_state_k::<3>();
+        let res = state.token(Token::Pass);
+        check_token_post_x::<true>(&res, &state, &pre, K::Pass, 4);
+        forget(res); forget(state);
+    }
+    #[kani::proof] #[kani::unwind(5)] fn var_k3_false() {
+        let (mut state, pre) = any_state_k::<3>();
+        let res = state.token(Token::Pass);
+        check_token_post_x::<false>(&res, &state, &pre, K::Pass, 4);
+        forget(res); forget(state);
+    }
     #[kani::proof]
     #[kani::unwind(5)]
     fn state_token_pass() {
@@ -870,8 +942,8 @@ mod harnesses {
     fn state_flush() {
         let (mut state, pre) = any_state();
         let res = state.flush_indents();
-        let amount = (pre.c / 4) as usize;
-        assert!(res.len() == amount, "flush: cur_indent/4 tokens returned");
+        let amount = level(pre.c);
+        assert!(res.len() == amount, "flush: level(cur_indent) Dedent tokens returned");
         macro_rules! check_at {
             ($i:expr) => {
                 if $i < res.len() {
